@@ -493,7 +493,7 @@ class NativeTree:
         os.makedirs(self.dir, exist_ok=True)
         self.lock = open(os.path.join(SCRATCH_ROOT, "native.lock"), "w")
         fcntl.flock(self.lock, fcntl.LOCK_EX)
-        subprocess.check_call(["rsync", "-a", "--delete", self.ws + "/", os.path.join(self.dir, "ws") + "/"])
+        subprocess.check_call(["rsync", "-rl", "--checksum", "--delete", self.ws + "/", os.path.join(self.dir, "ws") + "/"])
         return os.path.join(self.dir, "ws")
     def __exit__(self, *a):
         import fcntl
